@@ -265,6 +265,141 @@ func runC03(c *core.Ctx) {
 
 	// ---- fmt.chunks
 	checkChunks(c)
+
+	// ---- fmt.alias / fmt.deadfield
+	checkSliceReuse(c, "fmt.alias", fmtFuncs)
+	checkDeadRecordFields(c, "fmt.deadfield", "formatter", fmtFuncs)
+}
+
+// checkSliceReuse: `x = x[:0]` keeps the backing array. When an earlier value of the same variable was retained
+// (stored as an element of another slice, in a field or a map), refilling x overwrites what was retained: pieces of
+// the program printed from the retained value are replaced by later ones.
+func checkSliceReuse(c *core.Ctx, rule string, funcs []*ssa.Function) {
+	c.ExpectCanary(rule)
+	n := 0
+	for _, fn := range funcs {
+		for _, b := range fn.Blocks {
+			for _, in := range b.Instrs {
+				sl, ok := in.(*ssa.Slice)
+				if !ok || sl.High == nil {
+					continue
+				}
+				if k, isK := core.ConstIntValue(sl.High); !isK || k != 0 {
+					continue
+				}
+				if _, isSlice := sl.X.Type().Underlying().(*types.Slice); !isSlice {
+					continue
+				}
+				n++
+				// the variable: phi web around sl.X
+				web := map[ssa.Value]bool{}
+				var grow func(v ssa.Value)
+				grow = func(v ssa.Value) {
+					if web[v] {
+						return
+					}
+					web[v] = true
+					if phi, ok := v.(*ssa.Phi); ok {
+						for _, e := range phi.Edges {
+							grow(e)
+						}
+					}
+					// results of append(v, ...) are the same variable
+					if call, ok := v.(*ssa.Call); ok {
+						if bi, ok := call.Common().Value.(*ssa.Builtin); ok && bi.Name() == "append" {
+							grow(call.Common().Args[0])
+						}
+					}
+					if refs := v.Referrers(); refs != nil {
+						for _, r := range *refs {
+							if phi, ok := r.(*ssa.Phi); ok {
+								grow(phi)
+							}
+							if call, ok := r.(*ssa.Call); ok {
+								if bi, ok := call.Common().Value.(*ssa.Builtin); ok && bi.Name() == "append" && call.Common().Args[0] == v {
+									grow(call)
+								}
+							}
+						}
+					}
+				}
+				grow(sl.X)
+				var retained ssa.Instruction
+				var retention func(v ssa.Value, depth int)
+				retention = func(v ssa.Value, depth int) {
+					if v.Referrers() == nil || depth > 3 {
+						return
+					}
+					for _, r := range *v.Referrers() {
+						switch rt := r.(type) {
+						case *ssa.Store:
+							if rt.Val != v {
+								continue
+							}
+							switch rt.Addr.(type) {
+							case *ssa.IndexAddr, *ssa.FieldAddr:
+								retained = rt
+							}
+						case *ssa.MakeInterface:
+							retention(rt, depth+1) // the same slice header boxed in an interface
+						case *ssa.ChangeType:
+							retention(rt, depth+1)
+						case *ssa.MapUpdate:
+							if rt.Value == v {
+								retained = rt
+							}
+						}
+					}
+				}
+				for v := range web {
+					if v == ssa.Value(sl) {
+						continue
+					}
+					retention(v, 0)
+				}
+				key := fmt.Sprintf("%s|reslice#%s", core.FnName(fn), describeValue(sl.X))
+				if retained != nil && web[ssa.Value(sl)] {
+					c.Report(rule, key, in.Pos(), fmt.Sprintf("%s empties a slice with [:0] and refills it although an earlier value of the same variable is still referenced (stored at %s): both share one backing array, so what was kept is overwritten", core.FnName(fn), c.Prog.Loc(retained.Pos())))
+				} else {
+					c.Discharge(rule, key, in.Pos(), "no earlier value of the variable is retained")
+				}
+			}
+		}
+	}
+	_ = n
+}
+
+// checkDeadRecordFields: a field of a package-local record type that is written but never read carries a piece of the
+// program nowhere.
+func checkDeadRecordFields(c *core.Ctx, rule, rel string, funcs []*ssa.Function) {
+	pk := c.Prog.Pkg(rel)
+	if pk == nil {
+		return
+	}
+	census := fieldCensus(funcs)
+	for _, name := range pk.Types.Scope().Names() {
+		tn, ok := pk.Types.Scope().Lookup(name).(*types.TypeName)
+		if !ok {
+			continue
+		}
+		st, ok := tn.Type().Underlying().(*types.Struct)
+		if !ok {
+			continue
+		}
+		for i := 0; i < st.NumFields(); i++ {
+			f := st.Field(i)
+			fu := census[f]
+			if fu == nil || len(fu.writes) == 0 {
+				continue
+			}
+			key := name + "." + f.Name()
+			if len(fu.reads) > 0 {
+				c.Discharge(rule, key, f.Pos(), "written and read")
+			} else {
+				c.Report(rule, key, fu.writes[0].pos, fmt.Sprintf("%s.%s is filled in by the %s but never read: whatever part of the program it carries does not reach the output", name, f.Name(), rel))
+			}
+		}
+	}
 }
 
 func recvTypeName(fn *ssa.Function) string {
